@@ -385,14 +385,19 @@ fn main() {
                         let props = if w[4] == "x" {
                             None
                         } else {
+                            // tag grammar: <n> | <n>d<delay>  (will delay interval in seconds)
+                            let (tagn, delay) = match w[4].split_once('d') {
+                                Some((a, d)) => (a, Some(d.parse::<u32>().unwrap())),
+                                None => (w[4], None),
+                            };
                             Some(LastWillProperties {
-                                delay_interval: None,
+                                delay_interval: delay,
                                 payload_format_indicator: None,
                                 message_expiry_interval: None,
                                 content_type: None,
                                 response_topic: None,
                                 correlation_data: None,
-                                user_properties: tag_to_user(w[4].parse().unwrap()),
+                                user_properties: tag_to_user(tagn.parse().unwrap()),
                             })
                         };
                         (Some(will), props)
